@@ -40,8 +40,12 @@ def site_opcode_check(repo, chk, s, rule):
             judged += 1
             if s.n_inputs not in (0,) or s.has_output:
                 bad.append(f"label definition {v!r} with operands")
-        elif isinstance(v, Pattern) or not isinstance(v, str):
-            bad.append(f"opcode is not a constant string: {v!r}")
+        elif isinstance(v, Pattern):
+            # a spelling with a part that was not evaluated: not judged, and not a pass
+            chk.unresolved(rule, f"{key} [opcode {v!r}]", "the opcode has a part that could not be evaluated", s.where())
+            continue
+        elif not isinstance(v, str):
+            bad.append(f"opcode is not a string: {v!r}")
         else:
             judged += 1
             if v not in ISA:
@@ -88,10 +92,12 @@ def run(repo: Repo, chk: Check):
                 chk.ok("R09.a", s.key() + " [declared TOP: user text of @emit_code]", None, vacuous=True)
                 chk.assume("lines returned by a user's @emit_code function are emitted verbatim (compile_pass.handle_call): their syntax is the user's responsibility")
             else:
-                chk.bad("R09.a", s.key(), "opcode of this emission site cannot be resolved to a finite set", None, s.where())
+                chk.unresolved("R09.a", s.key(), "opcode of this emission site cannot be resolved to a finite set", s.where())
     # intrinsic wrappers: opcode exists and token count fits (exact signature is R16.d)
     for s in collect_sites(repo, ["intrinsics"]):
         ops = s.opcodes
+        if s.qual.startswith("_") and ops is TOP:
+            continue    # a private helper with the opcode as parameter: judged in the wrappers it is expanded into
         ok = ops is not TOP and all(isinstance(v, str) and v in ISA for v in ops)
         msg = ""
         if ok:
@@ -119,8 +125,8 @@ def run(repo: Repo, chk: Check):
                     if isinstance(v, tuple) and v:
                         ops.add(v[0])
             key = f"utils:{fname}:row {r.key!r} -> {sorted(ops, key=repr)}"
-            if not ops:
-                chk.bad("R09.a", key, "row opcode is not a constant", {"row": norm(r.node)}, f"{repo.mod('utils').path}:{r.node.lineno}")
+            if not ops or any(isinstance(op, Pattern) for op in ops):
+                chk.unresolved("R09.a", key, "row opcode could not be evaluated", f"{repo.mod('utils').path}:{r.node.lineno}")
                 continue
             bad = []
             for op in ops:
